@@ -1,9 +1,13 @@
-// C14 support: an INDEPENDENT recogniser, written from the YAML 1.2 core schema as jaq documents its
-// reading of it, of the untagged plain scalars that are resolved to something other than a string.
-// It is shared by the writer-side and reader-side harnesses so that their conclusions compose:
-//   R  (reader side):  the real parse_int / parse_float accept s  <=>  m_is_int(s) / m_is_float(s)
-//   W  (writer side):  !must_quote(s)  =>  !m_non_string(s)
-//   R and W  =>  a text string written as a plain scalar is read back as a string.
+// C14 support: the INTERPOLANT through which the YAML plain-scalar property is decided by composition.
+// Property P:  a text string the writer leaves unquoted is read back as a string.
+//   R (reader side):  the real parse_int / parse_float accept s   =>  m_mid(s)   (keywords: restated)
+//   W (writer side):  m_mid(s)                                     =>  must_quote(s)
+//   R and W  =>  P.
+// `m_mid` is written from the YAML 1.2 core schema, independently of both sides, and deliberately sits
+// in the MIDDLE between "what the reader resolves to a non-string" and "what the writer quotes", with
+// slack on both sides, so that changes which preserve P do not raise an alarm: the reader may become
+// more lenient on strings that start with a digit (`012`, `0x+f`, `1_000`), and the writer may stop
+// quoting strings that cannot be numbers (`.`, `.foo`), without either half failing.
 //@@ mount: jaq-fmts/src/lib.rs as verif_c14_model
 //@@ support
 #![allow(dead_code)]
@@ -15,85 +19,19 @@ pub(crate) fn is_keyword(b: &[u8]) -> bool {
         b"null" | b"Null" | b"NULL" | b"~" | b"true" | b"True" | b"TRUE" | b"false" | b"False" | b"FALSE" | b".nan" | b".NaN" | b".NAN"
     )
 }
-fn unsigned(b: &[u8]) -> &[u8] {
-    match b {
+/// optional sign, then a digit, or a dot followed by a digit, or an infinity spelling
+pub(crate) fn numeric_like(b: &[u8]) -> bool {
+    let r = match b {
         [b'-' | b'+', rest @ ..] => rest,
         _ => b,
-    }
-}
-fn all(b: &[u8], f: fn(u8) -> bool) -> bool {
-    let mut k = 0;
-    while k < b.len() {
-        if !f(b[k]) {
-            return false;
-        }
-        k += 1;
-    }
-    true
-}
-fn dec(c: u8) -> bool {
-    c.is_ascii_digit()
-}
-fn hex(c: u8) -> bool {
-    c.is_ascii_hexdigit()
-}
-fn bin(c: u8) -> bool {
-    c == b'0' || c == b'1'
-}
-fn oct(c: u8) -> bool {
-    (b'0'..=b'7').contains(&c)
-}
-/// integers: [-+]? ( 0 | [1-9][0-9]* | 0x[0-9a-fA-F]+ | 0b[01]+ | 0o[0-7]+ )
-pub(crate) fn m_is_int(b: &[u8]) -> bool {
-    match unsigned(b) {
-        [b'0'] => true,
-        [b'0', b'x', r @ ..] => !r.is_empty() && all(r, hex),
-        [b'0', b'b', r @ ..] => !r.is_empty() && all(r, bin),
-        [b'0', b'o', r @ ..] => !r.is_empty() && all(r, oct),
-        [b'1'..=b'9', r @ ..] => all(r, dec),
+    };
+    match r {
+        [c, ..] if c.is_ascii_digit() => true,
+        [b'.', c, ..] if c.is_ascii_digit() => true,
+        b".inf" | b".Inf" | b".INF" => true,
         _ => false,
     }
 }
-/// number of leading decimal digits
-fn digits(b: &[u8]) -> usize {
-    let mut k = 0;
-    while k < b.len() && dec(b[k]) {
-        k += 1;
-    }
-    k
-}
-/// floats: [-+]? ( .inf | .Inf | .INF | I? ( "." F? )? ( [eE] [-+]? E )? ) where I = 0 | [1-9][0-9]*,
-/// F and E are digit strings, E non-empty, and I or F non-empty
-pub(crate) fn m_is_float(b: &[u8]) -> bool {
-    let r = unsigned(b);
-    if matches!(r, b".inf" | b".Inf" | b".INF") {
-        return true;
-    }
-    let ni = digits(r);
-    let i = &r[..ni];
-    if !(i.is_empty() || i[0] != b'0' || ni == 1) {
-        return false;
-    }
-    let mut rest = &r[ni..];
-    let mut nf = 0;
-    if let [b'.', t @ ..] = rest {
-        nf = digits(t);
-        rest = &t[nf..];
-    }
-    if ni == 0 && nf == 0 {
-        return false;
-    }
-    if let [b'e' | b'E', t @ ..] = rest {
-        let t = unsigned(t);
-        let ne = digits(t);
-        if ne == 0 {
-            return false;
-        }
-        rest = &t[ne..];
-    }
-    rest.is_empty()
-}
-/// the reader resolves s to a non-string (keyword, integer or float)
-pub(crate) fn m_non_string(b: &[u8]) -> bool {
-    is_keyword(b) || m_is_int(b) || m_is_float(b)
+pub(crate) fn m_mid(b: &[u8]) -> bool {
+    is_keyword(b) || numeric_like(b)
 }
